@@ -206,15 +206,17 @@ class H:
                 e = self.tag.make(a[1])
                 sim.log("raise", where="act", ctx=exp, exc=describe(e))
                 raise e
-            if self.probe_every:
+            if self.probe_every and op != "corrupt":
                 self.at(exp, op)
 
     async def branch(self, br: dict, exp: str | None) -> None:
         self.at(exp, "branch_start")
+        corrupting = any(a[0] == "corrupt" for a in br.get("body", ()))
         try:
             await self.acts(br.get("body", ()), exp)
         finally:
-            self.at(exp, "branch_end")
+            if not corrupting:  # a deliberately corrupted context stack stays corrupted
+                self.at(exp, "branch_end")
 
     async def svc(self, spec: dict, exp: str | None) -> None:
         sim = self.sim
@@ -239,8 +241,10 @@ class H:
                 self.at(fid, "svc_end")
                 if spec.get("forever"):
                     await anyio.sleep(1e6)
-            finally:
-                pass
+            except BaseException as e:
+                if not is_cancel(e):
+                    sim.log("svc_escape", task=name, exc=describe(e))
+                raise
 
         await owner.start_service_task(body, name, teardown_action=spec.get("action", "cancel"))
 
@@ -652,6 +656,7 @@ def oracle(sim: Sim, plan: dict) -> list[dict]:
             ctx_ev.setdefault(c, {})[kind] = r
     ambient = plan.get("ambient")
     root_id = plan["root"]["id"]
+    svc_escaped = any(r[4] == "svc_escape" for r in tr)
 
     # ------------------------------------------------------------------------ C01
     stacks: dict[str, list[str]] = {}
@@ -757,7 +762,15 @@ def oracle(sim: Sim, plan: dict) -> list[dict]:
         be = ev["body_end"][5]
         R = raised.get(c, [])
         observed = xd["exc"]
-        cancelled = cancel_seq is not None and cancel_seq < exit_seq
+        if svc_escaped and ev["ctx_new"][5]["parent"] is None:
+            # a crashed service task legitimately takes its root context down (C08)
+            continue
+        cancelled = (
+            (cancel_seq is not None and cancel_seq < exit_seq)
+            or be["how"] == "cancel"
+            or "cancel" in leaves(observed)
+            or "cancel" in leaves({"g": R})
+        )
         if cancelled:
             allowed = set(map(_h, leaves({"g": R}))) | set(map(_h, leaves(be["exc"]))) | {"cancel"}
             extra = [x for x in leaves(observed) if _h(x) not in allowed]
